@@ -551,6 +551,26 @@ def rule_DF(run: Run) -> RuleResult:
                 or any(f"attr:handlers(self)" in (c[2] or "") for c in p.conds)
             own_first = own_first and looked
     res.add("labrea.runtime.Runtime.run:looks the handler up by type(request) in its own handlers", own_first, m.relpath, fn.lineno, f"served by {kinds}", nec)
+    # the handler runs outside the try that covers its look-up: a KeyError (LookupError, …) raised by the handler while it serves
+    # the request is the handler's failure, not "no handler registered"
+    guarded = []
+    n_hcalls = 0
+    for p in ps:
+        for e in p.events:
+            if e.kind != "call" or e.target is None:
+                continue
+            tk = e.target.key()
+            if tk in (own, dflt) or tk.startswith(own_get) or tk.startswith(dflt_get):
+                n_hcalls += 1
+                if e.guards:
+                    guarded.append((e.line, list(e.guards)))
+    res.add("labrea.runtime.Runtime.run:the handler is called outside the try of its look-up", n_hcalls > 0 and not guarded, m.relpath,
+            guarded[0][0] if guarded else fn.lineno,
+            f"line {guarded[0][0]}: the handler is called inside a try that catches {guarded[0][1]}: an error of that kind raised by the handler is taken for "
+            "a missing registration — the default handler (or a TypeError) answers instead and the failure is swallowed" if guarded
+            else f"{n_hcalls} handler calls on the paths, none inside a try",
+            "a failure raised by user code (a handler is user code) surfaces with its cause chain (C12); the served handler is the one the runtime holds, "
+            "not the default because the own one failed (C14, C18)")
     ok_t = bool(raises) and all(p.exc and p.exc[0].split(".")[-1] == "TypeError" for p in raises)
     res.add("labrea.runtime.Runtime.run:unserved request fails with TypeError", ok_t, m.relpath, fn.lineno, f"{[p.exc[0] for p in raises if p.exc]}", nec)
     # Request.run goes through the current runtime
@@ -691,8 +711,12 @@ def rule_HI(run: Run) -> RuleResult:
                 "at the moment of the request / of the derivation" if ok else
                 f"{cur.name}() called outside Request.run and handle(): the runtime found now is used (or entered) later, when another scope may be active",
                 "a request is served by the runtime that is current when it is issued (C14); capturing the current runtime moves that moment")
-    if len(callers) < 2:
-        raise AnalysisError(f"only {len(callers)} callers of {cur.name}() found (Request.run and handle expected)")
+    if not callers:
+        raise AnalysisError(f"no caller of {cur.name}() found (Request.run and handle expected; anchor vanished)")
+    for role, hit in (("Request.run", any(q.endswith("Request.run") for q, _ in callers)), (f"{m.name}.handle", any(q == f"{m.name}.handle" for q, _ in callers))):
+        if not hit:
+            # (a look-up routed through a helper is followed by the term-based obligations below; here only the direct reader is known)
+            res.notes.append(f"{role} does not call {cur.name}() directly")
     # installing handlers is the user's business: no library function enters a runtime (with handle(...) / disabled() / Runtime(...))
     # on its own — inside such a block the user's handlers for the re-bound request types are shadowed
     n_with = 0
